@@ -3,7 +3,7 @@ import math
 
 from hypothesis import strategies as st
 
-from pbt import netgen, oracles
+from pbt import netgen, oracles, refmodel
 from pbt.core import Result, silence, pf_outcome
 from pbt.props import c01
 
@@ -15,7 +15,8 @@ RULE = ("Same generator family as C01 (all element kinds, phase shifters, severa
         "pl_mw >= -tol for every passive branch (lines, 2W/3W transformers, symmetric impedances, impedance switches), total "
         "generation - total consumption = sum of all reported branch losses (+ impedance-switch and dcline losses); DC: all "
         "pl_mw = 0 and generation = consumption. Non-trivial = converged with >= 2 lines/transformers reporting pl_mw > 1e-9 MW.")
-ASSUMPTIONS = ["pl >= 0 is only demanded for impedance elements with equal ft/tf parameters (an asymmetric two-port is not reciprocal)",
+ASSUMPTIONS = ["pl >= 0 of a 3W transformer is only demanded if all three star-equivalent winding resistances are >= 0",
+               "pl >= 0 is only demanded for impedance elements with equal ft/tf parameters (an asymmetric two-port is not reciprocal)",
                "tolerance 1e-5 MVA + 1e-7 relative; pl >= -1e-7 MW - 1e-9 relative"]
 
 TERMINALS = {"line": ("p_from_mw", "p_to_mw"), "trafo": ("p_hv_mw", "p_lv_mw"), "trafo3w": ("p_hv_mw", "p_mv_mw", "p_lv_mw"),
@@ -66,6 +67,11 @@ def check(case):
                            all(r.get(a, 0) == r.get(b, 0) for a, b in (("gf_pu", "gt_pu"), ("bf_pu", "bt_pu"))))
             if tab == "dcline":
                 passive = False
+            if tab == "trafo3w":
+                # the documented star equivalent can contain a negative winding resistance (delta-star conversion of
+                # the vkr values); such a branch is outside "series resistance non-negative"
+                _, vkr_s, _ = refmodel.trafo3w_star_parameters(net.trafo3w.loc[idx])
+                passive = min(vkr_s) >= 0
             if dc and tab != "dcline":
                 if abs(pl) > 1e-9 * max(1.0, max(abs(x) for x in ps)):
                     res.fail("dc-loss-nonzero/%s" % tab, element=int(idx), pl=pl)
